@@ -104,7 +104,8 @@ def _stratified(raws, per_stratum, rng):
     return sorted(pick)
 
 
-def replay_family(ck, fam, res, tier, rng):
+def prepare_family(ck, fam, res, tier, rng):
+    """decode the exported cases of one family (quick: a stratified sample) and cut them into replay jobs"""
     ffs = lu.parse_export(_Header(res))[0]
     raws = _raw_cases(res)
     if not raws:
@@ -116,16 +117,18 @@ def replay_family(ck, fam, res, tier, rng):
     else:
         pick = list(range(len(raws)))
     items = [(i, _decode(raws[i])) for i in pick]
-    del raws
-    parts = [(fam, ch, ffs, "%s_%d" % (fam, k), tier == "thorough" and fam != "A") for k, ch in enumerate(c.chunks(items, c.NPROC * 3))]
-    nbad = 0
+    nparts = c.NPROC * 3 if fam == "A" else max(2, c.NPROC // 2)
+    parts = [(fam, ch, ffs, "%s_%d" % (fam, k), tier == "thorough" and fam != "A") for k, ch in enumerate(c.chunks(items, nparts))]
+    return items, ffs, parts
+
+
+def report_family(ck, fam, items, ffs, results):
     byidx = dict(items)
-    for bad, stats in c.pmap(_replay_chunk, parts):
+    for bad, stats in results:
         ck.evaluations += stats["runs"]
         ck.actions["replay_attempt_applied"] = ck.actions.get("replay_attempt_applied", 0) + stats["applied"]
         ck.actions["replay_attempt_rejected"] = ck.actions.get("replay_attempt_rejected", 0) + stats["rejected"]
         for idx, syntax, variant, diffs, known, obs in bad:
-            nbad += 1
             case = byidx[idx]
             ff = ffs[case["input"]["ff"] - 1]
             ck.violation({"kind": "S->I replay", "family": fam, "syntax": syntax, "variant": variant, "input": case["input"], "ff": ff,
@@ -139,7 +142,6 @@ def replay_family(ck, fam, res, tier, rng):
         mid = items[len(items) // 2][1]
         ck.sample({"S->I case (family %s)" % fam: {"input": mid["input"], "links": ffs[mid["input"]["ff"] - 1]["links"][:1],
                                                    "expected_ints": mid["expected"]["ints"][:4], "expected_calls": mid["expected"]["calls"][:4]}})
-    return items, ffs, nbad
 
 
 class _Header:
@@ -229,11 +231,17 @@ def _gen_params_chunk(arg):
     return bad, len(items)
 
 
-def gen_params_subset(ck, fam, items, ffs, n, rng):
-    pick = items if len(items) <= n else rng.sample(items, n)
-    parts = [(fam, ch, ffs, "%s_%d" % (fam, k)) for k, ch in enumerate(c.chunks(pick, c.NPROC))]
-    byidx = dict(items)
-    for bad, cnt in c.pmap(_gen_params_chunk, parts):
+def gen_params_subsets(ck, kept, plan, rng):
+    parts, where = [], []
+    for fam, n in plan:
+        items, ffs = kept[fam]
+        pick = items if len(items) <= n else rng.sample(items, n)
+        for k, ch in enumerate(c.chunks(pick, max(2, c.NPROC // 2) if len(pick) < 400 else c.NPROC * 2)):
+            parts.append((fam, ch, ffs, "%s_%d" % (fam, k)))
+            where.append(fam)
+    for fam, (bad, cnt) in zip(where, c.pmap(_gen_params_chunk, parts)):
+        items, ffs = kept[fam]
+        byidx = dict(items)
         ck.evaluations += cnt
         ck.extra["gen_params_runs"] = ck.extra.get("gen_params_runs", 0) + cnt
         for idx, diffs, known in bad:
@@ -372,8 +380,8 @@ def tlc_jobs(tier):
 
 def run(tier):
     ck = c.Check(PROP, tier)
-    ck.rule = ("S->I: every case of families A (all connected residue graphs on 1-4 residues x names {A,B}^n x 125 single-link force fields: orders "
-               "+ ++ - > >> < * **, names A, B, A|B, path / star / triangle patterns of 2-4 residues), B (36 force fields with extra attributes, "
+    ck.rule = ("S->I: every case of families A (all connected residue graphs on 1-4 residues x names {A,B}^n x 106 single-link force fields: orders "
+               "+ ++ - > >> < * **, names A, B, A|B, path / star / triangle patterns of 2-4 residues), B (35 force fields with extra attributes, "
                "replace, replace null, [edges], [non-edges], [patterns], two and three links overriding / different version, graphs on <= 3 residues "
                "and all-A graphs on 4), C (edge labels), D (residue labels), E (20 monomer .itp files with dangling interactions on chains of 1-5 "
                "and mixed chains); a case is non-trivial if at least one link applies or an atom is removed. I->S: seeded random cases with 5-7 "
@@ -401,17 +409,24 @@ def run(tier):
     for name, inv, what in DEVS:
         ck.model_must_refute(results["dev_" + name], inv, what)
     # 2. S->I
-    kept = {}
+    kept, jobs_of, allparts = {}, {}, []
+    ck.stage("decode exports")
     for fam in FAMS:
-        ck.stage("replay family %s" % fam)
         res = results["export_" + fam]
         ck.model_must_hold(res, "export %s: domain (no ties, stable), dangling theorem" % fam)
-        items, ffs, nbad = replay_family(ck, fam, res, tier, rng)
+        items, ffs, parts = prepare_family(ck, fam, res, tier, rng)
         kept[fam] = (items, ffs)
+        jobs_of[fam] = (len(allparts), len(allparts) + len(parts))
+        allparts += parts
         res.out = ""
+    ck.stage("replay families %s (%d cases)" % (" ".join(FAMS), sum(len(v[0]) for v in kept.values())))
+    out = c.pmap(_replay_chunk, allparts)
+    for fam in FAMS:
+        lo, hi = jobs_of[fam]
+        report_family(ck, fam, kept[fam][0], kept[fam][1], out[lo:hi])
+    del out, allparts
     ck.stage("gen_params entry point")
-    for fam, n in (("B", 60), ("C", 20), ("D", 20), ("E", 40)) if tier == "quick" else (("A", 1500), ("B", 1000), ("C", 252), ("D", 144), ("E", 680)):
-        gen_params_subset(ck, fam, kept[fam][0], kept[fam][1], n, rng)
+    gen_params_subsets(ck, kept, (("B", 60), ("C", 20), ("D", 20), ("E", 40)) if tier == "quick" else (("A", 1500), ("B", 1000), ("C", 252), ("D", 144), ("E", 680)), rng)
     kept.clear()
     # 3. I->S
     ck.stage("I->S: random cases")
